@@ -50,7 +50,9 @@ def gen(rng, i, tier):
         n = int(rng.choice([0, 1, 2, 3, int(rng.integers(4, 60 if tier == "quick" else 300))]))
         w = int(rng.integers(0, len(WRITERS)))
         return dict(kind="write", writer=WRITERS[w][0], w=w, x=tolist(values(rng, n)), y=tolist(values(rng, n)),
-                    explicit=bool(rng.random() < 0.4), stem="s%d" % int(rng.integers(0, 10**6)), rsf=str(rng.choice(["g(r)", "G(r)", "GK(r)"])))
+                    explicit=bool(rng.random() < 0.4),
+                    stem=str(rng.choice(["s%d" % int(rng.integers(0, 10**6)), "run_1.5K", "sample.v1.2", "a.b", "x-y_z", "out."])),
+                    rsf=str(rng.choice(["g(r)", "G(r)", "GK(r)"])))
     n = 1 if rng.random() < 0.2 else int(rng.integers(2, 40))
     q = np.round(int(rng.integers(5, 300)) / 100 + np.cumsum(rng.integers(1, 6, n)) / 100, 2)
     s = 1 + rng.normal(size=n) * 0.3
@@ -74,6 +76,8 @@ def write_file(case, d):
             name = pat % case["stem"] if "%s" in pat else pat
             getattr(st, meth)()
         produced = sorted(os.listdir(d))
+        if not os.path.exists(os.path.join(d, name)):
+            return name, produced, None
         return name, produced, open(os.path.join(d, name), "rb").read()
     finally:
         os.chdir(cwd)
@@ -86,7 +90,9 @@ def evaluate(case):
         name, produced, raw = write_file(case, d)
         x, y = np.asarray(case["x"], dtype=float), np.asarray(case["y"], dtype=float)
         if produced != [name]:
-            fails.append(f"{case['writer']}: files produced {produced}, expected exactly ['{name}']")
+            fails.append(f"{case['writer']} with stem {case['stem']!r}: files produced {produced}, expected exactly ['{name}']")
+        if raw is None:
+            return fails
         text = raw.decode()
         L = text.split("\n")
         if not (L[0] == "%d " % len(x) and L[1].startswith("#") and L[-1] == "" and len(L) - 3 == len(x)):
@@ -152,6 +158,12 @@ def correspond(seed, tier):
             name, produced, raw = write_file(c, d)
         finally:
             shutil.rmtree(d, ignore_errors=True)
+        if raw is None:
+            expect[f"w{i}"] = b"<file %s not written; produced %s>" % (name.encode(), str(produced).encode())
+            lines.append(proto.request(f"w{i}", "Model.fileText", {}, [np.asarray(c["x"], dtype=float), np.asarray(c["y"], dtype=float)]))
+            lines.append(proto.request(f"w{i}r", "Model.readBack", {}, [np.asarray(c["x"], dtype=float), np.asarray(c["y"], dtype=float)]))
+            cases[f"w{i}"] = (np.asarray(c["x"], dtype=float), np.asarray(c["y"], dtype=float))
+            continue
         rid = f"w{i}"
         x, y = np.asarray(c["x"], dtype=float), np.asarray(c["y"], dtype=float)
         lines.append(proto.request(rid, "Model.fileText", {}, [x, y]))
